@@ -61,8 +61,9 @@ pub fn judge(docs: &[&DocEntry], el: &Element<String>, rank: u64) -> Vec<Violati
 pub fn run(ctx: &Ctx) {
     ctx.set("exhaustive", json!(true));
     // (a) single documents
-    let w = ctx.tier.pick(5, 7);
-    let cfg = plain_cfg(w);
+    let mut all_distinct: HashSet<u64> = HashSet::new();
+    let mut total_evals = 0u64;
+    for cfg in [plain_cfg(ctx.tier.pick(5, 7)), wide_cfg(ctx.tier.pick(4, 5)), deep_cfg(ctx.tier.pick(6, 8)), history_cfg(ctx.tier.pick(4, 5))] {
     let describe = cfg.describe();
     let sp = Space::new(cfg);
     let res = par_for(
@@ -95,22 +96,22 @@ pub fn run(ctx: &Ctx) {
             }
         },
     );
-    let mut distinct: HashSet<u64> = HashSet::new();
     for a in res.accs {
-        distinct.extend(a);
+        all_distinct.extend(a);
     }
-    ctx.set("evaluations", json!(res.processed));
-    ctx.set("distinct_nontrivial", json!(distinct.len()));
-    ctx.set("single_document_space", json!(describe));
-    ctx.set("single_documents", json!({"space_size": sp.len(), "visited": res.processed}));
+    total_evals += res.processed;
+    ctx.push("single_document_spaces", json!({"space": describe, "size": sp.len(), "visited": res.processed}));
     if !res.complete {
         ctx.set("exhaustive", json!(false));
-        ctx.set("cap", json!(format!("wall budget: {} of {} single documents", res.processed, sp.len())));
+        ctx.push("caps", json!(format!("wall budget: {} of {} single documents", res.processed, sp.len())));
     }
+    }
+    ctx.set("evaluations", json!(total_evals));
+    ctx.set("distinct_nontrivial", json!(all_distinct.len()));
     // (b) histories
     let searches: Vec<(usize, usize)> = ctx.tier.pick(vec![(2, 4), (3, 1)], vec![(2, 8), (3, 3)]);
     for (aw, depth) in searches {
-        let alphabet = materialise(plain_cfg(aw));
+        let alphabet = materialise(history_cfg(aw));
         let mut events: Vec<Event> = alphabet.iter().cloned().map(Event::doc).collect();
         events.extend(elementless().into_iter().map(Event::doc));
         let judge_t = |t: &Transition| match t.succ {
